@@ -5,5 +5,5 @@ CONSTANTS
   WithRestore = FALSE
   Bug = "undo_no_collapse"
   Emit = FALSE
-INVARIANTS InvRefines InvStackInLog InvUndoRedoInverse
+INVARIANTS InvRefines InvStackInLog InvUndoRedoInverse InvAdjacentDiffer
 CHECK_DEADLOCK FALSE
